@@ -175,29 +175,86 @@ type effSlot struct {
 	val      string
 	formFrom int // class the initform comes from
 	levels   int // number of classes on the precedence list defining the slot
+	nForms   int // number of those definitions that have an initform
+	formAt   int // position (1 = most specific) among the defining classes of the one whose initform is used
 	typ      string
 	direct   bool // the class itself defines the slot
 	// initform of the class's own definition ("" = none)
 	directForm, directVal string
 }
 
-// sharedSlot describes the class-allocated slot k0 of class c: the class
-// whose definition owns the shared location (the most specific class on the
-// precedence list defining it), and whether any definition has an initform.
+// sharedSlot describes the class-allocated slot k0 of class c. The most
+// specific definition of k0 on the precedence list decides the allocation
+// (ANSI 7.5.3): when it says :allocation :class the slot is shared and its
+// class owns the location; when it is an ordinary definition k0 is a local
+// slot of c even though a less specific class allocates it in the class (see
+// localOverShared). hasForm: some definition has an initform; overLocal: a
+// less specific class defines k0 as a local slot; initargs: those of every
+// definition of k0 on the list.
 func (m *model) sharedSlot(c int) (owner int, hasForm, exists bool) {
+	owner, hasForm, exists, _, _ = m.sharedSlotX(c)
+	return
+}
+
+func (m *model) sharedSlotX(c int) (owner int, hasForm, exists, overLocal bool, initargs []string) {
 	owner = -1
+	decided := false
 	for _, k := range m.prec(c) {
 		if k < 0 {
 			continue
 		}
 		for _, sd := range m.classes[k].Slots {
-			if sd.Shared {
-				if !exists {
-					owner, exists = k, true
+			if sd.Name != sharedName {
+				continue
+			}
+			if !decided {
+				decided = true
+				if !sd.Shared {
+					return -1, false, false, false, nil
 				}
-				if sd.Form != "" {
-					hasForm = true
+				owner, exists = k, true
+			} else if !sd.Shared {
+				overLocal = true
+			}
+			if sd.Form != "" {
+				hasForm = true
+			}
+			for _, ia := range sd.Initargs {
+				dup := false
+				for _, have := range initargs {
+					dup = dup || have == ia
 				}
+				if !dup {
+					initargs = append(initargs, ia)
+				}
+			}
+		}
+	}
+	return
+}
+
+// sharedName is the only slot name that is ever class-allocated.
+const sharedName = "k0"
+
+// k0State tells how class c sees the slot k0: "" = no such slot, "shared",
+// or "local" (its most specific definition is an ordinary one); underShared:
+// it is local although a less specific class allocates it in the class.
+func (m *model) k0State(c int) (state string, underShared bool) {
+	for _, k := range m.prec(c) {
+		if k < 0 {
+			continue
+		}
+		for _, sd := range m.classes[k].Slots {
+			if sd.Name != sharedName {
+				continue
+			}
+			if state == "" {
+				state = "local"
+				if sd.Shared {
+					return "shared", false
+				}
+			} else if sd.Shared {
+				underShared = true
 			}
 		}
 	}
@@ -225,13 +282,17 @@ func (m *model) defaults(c int) (out []Default, from []int) {
 
 func (m *model) slots(c int) []effSlot {
 	byName := map[string]*effSlot{}
+	alloc := map[string]bool{}
 	var order []string
 	for _, k := range m.prec(c) {
 		if k < 0 {
 			continue
 		}
 		for _, sd := range m.classes[k].Slots {
-			if sd.Shared {
+			if _, seen := alloc[sd.Name]; !seen {
+				alloc[sd.Name] = sd.Shared // the most specific definition decides the allocation
+			}
+			if alloc[sd.Name] {
 				continue // class-allocated slots are modelled by sharedSlot
 			}
 			es := byName[sd.Name]
@@ -252,8 +313,11 @@ func (m *model) slots(c int) []effSlot {
 					es.initargs = append(es.initargs, ia)
 				}
 			}
+			if sd.Form != "" {
+				es.nForms++
+			}
 			if !es.hasForm && sd.Form != "" {
-				es.hasForm, es.form, es.val, es.formFrom = true, sd.Form, sd.Val, k
+				es.hasForm, es.form, es.val, es.formFrom, es.formAt = true, sd.Form, sd.Val, k, es.levels
 			}
 			if sd.Type != "" {
 				es.typ = sd.Type
@@ -308,6 +372,14 @@ func argVal(ia string, all []string) string {
 // a fresh instance of c made with the initargs args (in call order), plus
 // the features of that call that select a listed finding.
 func (m *model) instance(c int, args []string, universe []string, allArgs []string) (state map[string]string, feats []string) {
+	state, feats, _ = m.instanceX(c, args, universe, allArgs)
+	return
+}
+
+// instanceX also tells, per slot name, where the value comes from (monitor
+// counters: which clause of the statement the observation exercises).
+func (m *model) instanceX(c int, args []string, universe []string, allArgs []string) (state map[string]string, feats []string, src map[string]string) {
+	src = map[string]string{}
 	state = map[string]string{}
 	for _, n := range universe {
 		state[n] = missing
@@ -343,6 +415,14 @@ func (m *model) instance(c int, args []string, universe []string, allArgs []stri
 				if ia == a.arg {
 					if n == 0 {
 						state[es.name] = a.val
+						switch {
+						case !a.explicit:
+							src[es.name] = "default-initarg"
+						case es.hasForm:
+							src[es.name] = "initarg-over-initform"
+						default:
+							src[es.name] = "initarg"
+						}
 					}
 					n++
 					if a.explicit {
@@ -354,8 +434,24 @@ func (m *model) instance(c int, args []string, universe []string, allArgs []stri
 		if 1 < explicit {
 			fs["two-initargs-one-slot"] = true
 		}
-		if n == 0 && es.hasForm {
+		switch {
+		case n == 0 && es.hasForm:
 			state[es.name] = es.val
+			switch {
+			case es.formFrom == c:
+				src[es.name] = "initform-own"
+			case es.formAt == 1:
+				src[es.name] = "initform-inherited"
+			default:
+				src[es.name] = "initform-inherited-through-" + strconv.Itoa(es.formAt-1) + "-definitions-without"
+			}
+			if 1 < es.nForms {
+				src[es.name] += "+hides-" + strconv.Itoa(es.nForms-1)
+			}
+		case n == 0:
+			src[es.name] = "unbound"
+		case 1 < n:
+			src[es.name] += "+leftmost-of-" + strconv.Itoa(n)
 		}
 	}
 	for _, a := range list {
@@ -440,10 +536,7 @@ func (m *model) changed(x, y int, before map[string]string, universe []string) (
 
 // accessor names; gen distinguishes the accessors of a redefinition.
 func accName(kind string, class, gen int, slot string) string {
-	g := ""
-	if 0 < gen {
-		g = "n"
-	}
+	g := strings.Repeat("n", gen)
 	return "@" + kind + g + "-c" + strconv.Itoa(class) + "-" + slot
 }
 
